@@ -158,11 +158,12 @@ Proof.
   destruct (ensure_program_tightness is_tight t (et_program t)) as [w1|e|]; [|discriminate|discriminate].
   destruct (has_private_recursion (et_program t) _); [discriminate|].
   destruct (is_nil (iset_inter pred_dec (ug_input_predicates (et_user_guide t)) (head_predicates_fol (et_program t)))); cbn [negb]; [|discriminate].
-  destruct (placeholder_clash (ug_placeholders (et_user_guide t)) []); [discriminate|].
-  destruct (assumptions_only_input [] (ug_input_predicates (et_user_guide t)) (ug_formulas (et_user_guide t))); cbn [negb]; [|discriminate].
-  destruct (spec_assumptions_no_output (ug_output_predicates (et_user_guide t)) S); cbn [negb]; [|discriminate].
-  destruct (assumptions_only_input _ (ug_input_predicates (et_user_guide t)) S); cbn [negb]; [|discriminate].
-  destruct (spec_roles_supported S); cbn [negb]; [reflexivity|discriminate].
+  destruct (placeholder_clash_name (ug_placeholders (et_user_guide t)) []); [discriminate|].
+  destruct (first_non_input_assumption [] (ug_input_predicates (et_user_guide t)) (ug_formulas (et_user_guide t))); [discriminate|].
+  destruct (first_output_overlap (ug_output_predicates (et_user_guide t)) S); [discriminate|].
+  destruct (first_non_input_assumption _ (ug_input_predicates (et_user_guide t)) S); [discriminate|].
+  destruct (first_unsupported_role S) eqn:Er; [discriminate|].
+  intros _. apply first_unsupported_role_none. exact Er.
 Qed.
 
 (* the validated task behind an accepted specification-vs-program task without proof outline *)
